@@ -83,6 +83,16 @@ CHECKS["C13"] = dict(
    note=TB + "Bounds: quick 2 rows x <=4 letters, W=4; thorough 3 rows, W=5; binding B rows up to 80 letters, k up to 31 (14 for the amino alphabet).",
    technique="TLA+ definitional spec + TLC exhaustive ragged-list states replayed into code; TLC batch validation of recorded calls",
    design="6/C13")
+CHECKS["C17"] = dict(
+   text="spec/Faidx.tla gives the byte layout of a FASTA from its records, the index row (L, offset, W, W+1) and the substring as "
+        "meaning, and transcribes the row/modulo byte arithmetic and newline deletion of indexed_fasta.py as L1; TLC checks FetchCorrect "
+        "for every record set (1-2 records, L<=6, W<=4, 2 header lengths; 3 records in the thorough tier) x every [a,b) x whole-contig "
+        "fetches, with and without final newline. Every configuration is concretised to a real file: created index, written .fai, "
+        "supplied faidx-style .fai, whole contigs, every interval through the plain and the StringEncoding path with all records "
+        "mixed in one batch and label order different from file order, contig lengths.",
+   note=TB + "Bases-per-line of single-line records is not determined by the file and is not compared; the contig name is the first word of the header.",
+   technique="TLA+ layout/arithmetic model checked by TLC over all small files and intervals; every configuration replayed on real files",
+   design="6/C17")
 PENDING = {}
 def main():
     props = [json.loads(l)["id"] for l in open(os.path.join(HERE, "properties.jsonl"))]
